@@ -55,7 +55,8 @@ func NewSigner(alg Algorithm, key crypto.Signer) (Signer, error) {
 	var errReason string
 	switch alg {
 	case AlgorithmPS256, AlgorithmPS384, AlgorithmPS512:
-		vk, ok := key.Public().(*rsa.PublicKey)
+		key, pub := publicKeyOf(key)
+		vk, ok := pub.(*rsa.PublicKey)
 		if !ok {
 			return nil, fmt.Errorf("%v: %w", alg, ErrInvalidPubKey)
 		}
@@ -70,7 +71,8 @@ func NewSigner(alg Algorithm, key crypto.Signer) (Signer, error) {
 			key: key,
 		}, nil
 	case AlgorithmES256, AlgorithmES384, AlgorithmES512:
-		vk, ok := key.Public().(*ecdsa.PublicKey)
+		key, pub := publicKeyOf(key)
+		vk, ok := pub.(*ecdsa.PublicKey)
 		if !ok {
 			return nil, fmt.Errorf("%v: %w", alg, ErrInvalidPubKey)
 		}
@@ -86,10 +88,8 @@ func NewSigner(alg Algorithm, key crypto.Signer) (Signer, error) {
 			signer: key,
 		}, nil
 	case AlgorithmEdDSA:
-		if sk, ok := key.(ed25519.PrivateKey); ok && len(sk) != ed25519.PrivateKeySize {
-			return nil, fmt.Errorf("%v: %w", alg, ErrInvalidPubKey)
-		}
-		if vk, ok := key.Public().(ed25519.PublicKey); !ok || len(vk) != ed25519.PublicKeySize {
+		key, pub := publicKeyOf(key)
+		if vk, ok := pub.(ed25519.PublicKey); !ok || len(vk) != ed25519.PublicKeySize {
 			return nil, fmt.Errorf("%v: %w", alg, ErrInvalidPubKey)
 		}
 		return &ed25519Signer{
@@ -103,4 +103,22 @@ func NewSigner(alg Algorithm, key crypto.Signer) (Signer, error) {
 		errReason = "unknown algorithm"
 	}
 	return nil, fmt.Errorf("can't create new Signer for %s: %s: %w", alg, errReason, ErrAlgorithmNotSupported)
+}
+
+// publicKeyOf returns key.Public() — or nil for an ed25519.PrivateKey, by value
+// or behind a pointer (which is a crypto.Signer too), that is not 64 octets
+// long: such a key belongs to no family, and asking it for its public half
+// panics or yields a slice that looks like a public key. A pointer to a
+// well-formed key is replaced by the key it points to.
+func publicKeyOf(key crypto.Signer) (crypto.Signer, crypto.PublicKey) {
+	if p, ok := key.(*ed25519.PrivateKey); ok {
+		if p == nil {
+			return key, nil
+		}
+		key = *p
+	}
+	if sk, ok := key.(ed25519.PrivateKey); ok && len(sk) != ed25519.PrivateKeySize {
+		return key, nil
+	}
+	return key, key.Public()
 }
